@@ -113,7 +113,11 @@ pub fn apply(w: &mut World, op: &Op, armed: Option<u32>) -> TxOut {
     match op {
         Op::Engine { sender, msg, funds } => {
             let a = w.engine.clone();
-            w.exec(sender, &a, msg, *funds, armed)
+            let out = w.exec(sender, &a, msg, *funds, armed);
+            if let (true, eng::ExecuteMsg::SetPause { pause }) = (out.ok, msg) {
+                w.pause_shadow.set(*pause);
+            }
+            out
         }
         Op::Vamm { sender, vamm, msg } => {
             let a = w.vamms[*vamm].clone();
